@@ -4,6 +4,7 @@ from analysis.flow import DefUse, find_calls, callee_ends, op_local
 from analysis.table import PathWalker, describe_val, is_eq_call
 from analysis.cfg import Cfg
 from rules.common import start, need
+from rules import wave2, wave3, coro
 
 ST = "common::constants::CoroutineState"
 FNS = ["ready", "running", "suspend", "syscall", "cancel", "complete", "error"]
@@ -485,4 +486,10 @@ def run(tier):
         sole_writer_rule(run, f)
         terminal_rule(run, f)
         yield_rule(run, f)
+    # clauses added for the wave-2 seeds (rules/wave2.py; DESIGN 12a)
+    for _cfg, f in fx.items():
+        wave3.change_broadcast_rule(run, f, "C07-BROADCAST-EVERY-CHANGE")
+        coro.push_yield_rule(run, f, "C07-YIELD-REQUESTS")
+        coro.drain_rule(run, f, "C07-YIELD-DRAIN")
+        wave2.request_pairing_rule(run, f, "C07-REQUEST-PAIRING")
     return run.finish()
